@@ -13,7 +13,7 @@ ASSUMPTIONS = ['abstract content is read with non-instantiating accessors (pv/co
 SHARDS = {'quick': (16, 200), 'thorough': (16, 5000)}
 BUDGET = {'quick': 100, 'thorough': 1500}
 MIN_NONTRIVIAL = {'quick': 400, 'thorough': 5000}
-CFG = {'long_str_pct': 8, 'long_bits_pct': 25}
+CFG = {'long_str_pct': 8, 'long_bits_pct': 25, 'huge_str_pct': 1}
 PAIRS = (('DER', 'DER'), ('DER', 'CER'), ('DER', 'BER'), ('CER', 'CER'), ('CER', 'BER'))
 
 
